@@ -256,6 +256,61 @@ class Tr:
         raise Untranslatable(f'return type {ty} vs {rty}')
 
 
+def eval_scope_facts(status):
+    """Context.get_eval_string: in which namespace a !py expression is evaluated.  Facts read off the source:
+    the expression is eval'ed with ONE namespace argument, a chain whose first map is a FRESH empty dict
+    literal created by this very call, second the context itself, third the import namespace; the empty
+    expression raises ValueError.  (One level of `name = <chain>` aliasing inside the method is followed.)"""
+    name = 'gen_eval_scope'
+    try:
+        tree = ast.parse((REPO / 'pypyr/context.py').read_text())
+        fn = find_function(tree, 'Context.get_eval_string')
+        body = strip(fn.body)
+        if [a.arg for a in fn.args.args] != ['self', 'input_string']:
+            raise Untranslatable('signature')
+        aliases = {}
+        while body and isinstance(body[0], ast.Assign) and len(body[0].targets) == 1 \
+                and isinstance(body[0].targets[0], ast.Name):
+            aliases[body[0].targets[0].id] = body[0].value
+            body = body[1:]
+        if len(body) != 1 or not isinstance(body[0], ast.If):
+            raise Untranslatable('body shape')
+        st = body[0]
+        if not (isinstance(st.test, ast.Name) and st.test.id == 'input_string'):
+            raise Untranslatable('guard')
+        then = strip(st.body)
+        while then and isinstance(then[0], ast.Assign) and len(then[0].targets) == 1 \
+                and isinstance(then[0].targets[0], ast.Name):
+            aliases[then[0].targets[0].id] = then[0].value
+            then = then[1:]
+        if len(then) != 1 or not isinstance(then[0], ast.Return):
+            raise Untranslatable('then branch')
+        call = then[0].value
+        if not (isinstance(call, ast.Call) and isinstance(call.func, ast.Name) and call.func.id == 'eval'
+                and not call.keywords and len(call.args) == 2):
+            raise Untranslatable('eval call (exactly: expression, one namespace)')
+        if not (isinstance(call.args[0], ast.Name) and call.args[0].id == 'input_string'):
+            raise Untranslatable('eval expression argument')
+        ns = call.args[1]
+        if isinstance(ns, ast.Name) and ns.id in aliases:
+            ns = aliases[ns.id]
+        if not (isinstance(ns, ast.Call) and isinstance(ns.func, ast.Name) and ns.func.id == '_ChainMapPretendDict'
+                and not ns.keywords):
+            raise Untranslatable('namespace is not a _ChainMapPretendDict(...) built in this call')
+        maps = [ast.unparse(a) for a in ns.args]
+        orelse = strip(st.orelse)
+        raises = (len(orelse) == 1 and isinstance(orelse[0], ast.Raise) and isinstance(orelse[0].exc, ast.Call)
+                  and isinstance(orelse[0].exc.func, ast.Name) and orelse[0].exc.func.id == 'ValueError')
+        qs = '[' + '; '.join('"' + m.replace('"', '""') + '"' for m in maps) + ']'
+        status[name] = 'ok'
+        return ['(* pypyr/context.py: Context.get_eval_string — (maps of the eval namespace in order, empty expression raises ValueError) *)',
+                f'Definition {name} : list string * bool := ({qs}, {"true" if raises else "false"}).', '']
+    except (Untranslatable, OSError, SyntaxError, KeyError, AttributeError) as ex:
+        status[name] = f'untranslated: {ex}'
+        return [f'(* Context.get_eval_string could not be read: {ex} *)',
+                f'Definition {name}_UNTRANSLATED : unit := tt.', '']
+
+
 def translate_all():
     lines = ['(** Gen/Leaves.v — GENERATED by tools/py2coq.py from the current source under the repository;',
              '    do not edit.  A function that could not be translated gets the suffix _UNTRANSLATED, which',
@@ -280,6 +335,7 @@ def translate_all():
             lines.append(f'Definition {cname}_UNTRANSLATED : unit := tt.')
             status[cname] = f'untranslated: {ex}'
         lines.append('')
+    lines += eval_scope_facts(status)
     text = '\n'.join(lines)
     OUT.parent.mkdir(exist_ok=True)
     if not OUT.exists() or OUT.read_text() != text:
